@@ -98,7 +98,7 @@ func (db *RockDB) hSetField(ts int64, checkNX bool, hkey []byte, field []byte, v
 		slow.LogLargeCollection(int(newNum), slow.NewSlowLogInfo(string(table), string(hkey), "hash"))
 		if newNum > collectionLengthForMetric {
 			metric.CollectionLenDist.With(ps.Labels{
-				"table": string(table),
+				"table": tableMetricLabel(table),
 			}).Observe(float64(newNum))
 		}
 	}
@@ -269,7 +269,7 @@ func (db *RockDB) HMset(ts int64, key []byte, args ...common.KVRecord) error {
 	slow.LogLargeCollection(int(newNum), slow.NewSlowLogInfo(string(table), string(key), "hash"))
 	if newNum > collectionLengthForMetric {
 		metric.CollectionLenDist.With(ps.Labels{
-			"table": string(table),
+			"table": tableMetricLabel(table),
 		}).Observe(float64(newNum))
 	}
 
